@@ -44,7 +44,7 @@ Qed.
 Lemma step_R s f ag s' ag' : RI s -> step s f ag = (s', ag') -> RI s'.
 Proof.
   intros HR H. pose proof HR as [Ho Hr].
-  destruct f as [[cb|full nl cb| | |r|]| | | |]; cbn [step do_op] in H.
+  destruct f as [[sn cb|full nl cb| | |r|]| | | |]; cbn [step do_op] in H.
   - rewrite Ho in H. destruct (s_max s <=? len (s_queue s)) eqn:E.
     + inversion H; subst. unfold RI. cbn. auto.
     + apply take_next_kf in H. eapply RI_frame; [exact H|]. unfold RI. cbn.
